@@ -455,6 +455,44 @@ def castuse_stream(sh, backend, n, mech_fn):
     for k in shape.split("+"): sh.count("castuse:" + k)
 
 
+def gen_feedback_design(rng):
+  """a parent that wires an output of a child back to an input of the SAME child (an accumulator closed outside the component), in
+  either spelling of the connect statement, whole or by halves, for a single child or the elements of a list; beside it the same
+  ring closed between two DIFFERENT children.  Either the translator refuses the design, or the text is right"""
+  W = rng.choice([4, 8])
+  n = rng.randrange(1, 4)
+  lst = rng.random() < 0.5
+  how = rng.choice(["writer-first", "reader-first", "connect-writer-first", "connect-reader-first"])
+  halves = rng.random() < 0.3
+  same = rng.random() < 0.75
+  L = ["from pymtl3 import *", "class FAcc(Component):", "  def construct(s):",
+       f"    s.in_ = InPort({W}); s.fb = InPort({W}); s.out = OutPort({W}); s.r = Wire({W})",
+       "    @update_ff", "    def ff():", "      if s.reset: s.r <<= 0", "      else: s.r <<= s.in_ + s.fb", "    s.out //= s.r",
+       "class FBTop(Component):", "  def construct(s):", f"    s.in_ = InPort({W}); s.out = [OutPort({W}) for _ in range({n})]"]
+  L.append(f"    s.acc = [FAcc() for _ in range({n})]" if lst else "\n".join(f"    s.acc{i} = FAcc()" for i in range(n)))
+  for i in range(n):
+    c = f"s.acc[{i}]" if lst else f"s.acc{i}"
+    d = c if same else (f"s.acc[{(i + 1) % n}]" if lst else f"s.acc{(i + 1) % n}")          # the child whose output feeds c.fb
+    L.append(f"    {c}.in_ //= s.in_")
+    parts = [("", "")] if not halves else [(f"[0:{W // 2}]", f"[0:{W // 2}]"), (f"[{W // 2}:{W}]", f"[{W // 2}:{W}]")]
+    for (a, b) in parts:
+      wr, rd = f"{d}.out{a}", f"{c}.fb{b}"
+      L.append({"writer-first": f"    {wr} //= {rd}", "reader-first": f"    {rd} //= {wr}", "connect-writer-first": f"    connect({wr}, {rd})",
+                "connect-reader-first": f"    connect({rd}, {wr})"}[how])
+    L.append(f"    s.out[{i}] //= {c}.out")
+  return "\n".join(L) + "\n", ("same-child" if same or n == 1 else "ring-of-siblings") + ":" + how
+
+
+def feedback_stream(sh, backend, n, mech_fn):
+  for case in range(n):
+    rng = sh.rng("feedback", case)
+    src, shape = gen_feedback_design(rng)
+    before = sh.counters.get("rejected_by_translator", 0)
+    directed(sh, backend, f"feedback-{case}", src, "FBTop", mech_fn)
+    if sh.counters.get("rejected_by_translator", 0) > before: sh.count("feedback_designs_refused"); sh.count("feedback_refused:" + shape.split(":")[0])
+    else: sh.count("feedback_designs_cosimulated"); sh.count("feedback:" + shape.split(":")[0])
+
+
 def localname_stream(sh, backend, n, mech_fn):
   for case in range(n):
     rng = sh.rng("localname", case)
